@@ -90,6 +90,51 @@ Theorem C18_histories_stable_tidy : forall c ops fs s,
 Proof. exact run_hist_stable_tidy. Qed.
 Print Assumptions C18_histories_stable_tidy.
 
+(* MAIN MODELS LOADED FROM A STRING (metamodel.model_from_str without a file name; the GlobalRepo providers register
+   such a model under an invented name 'anonymousN', key |files|+N in the model).  Same statements: a failing
+   string load - syntax error, unresolved reference, object processor, model processor, failure in a file the
+   providers load - leaves the repositories exactly as they were (the invented entry is removed, earlier string
+   models stay), and whatever failed, a file load or a string load, every following file load or string load is
+   literally what it would have been without the failed attempt. *)
+Theorem C18_clean_string_main : forall fs c fc s e s',
+  Stable s -> load_str fs c fc s = (inl e, s') ->
+  allm s' = allm (begin_op c s) /\ (forall x, x < length (heap s) -> local_of x s' = local_of x s) /\ Stable s'.
+Proof. exact load_str_failure_clean. Qed.
+Print Assumptions C18_clean_string_main.
+
+Theorem C18_next_load_as_if_never_failed : forall c s s',
+  Stable s -> Tidy s ->
+  (exists fs f e, load_main fs c f s = (inl e, s')) \/ (exists fs fc e, load_str fs c fc s = (inl e, s')) ->
+  (forall fs' f', load_main fs' c f' s' = load_main fs' c f' s) /\
+  (forall fs' fc', load_str fs' c fc' s' = load_str fs' c fc' s).
+Proof. exact next_load_as_if_never_failed. Qed.
+Print Assumptions C18_next_load_as_if_never_failed.
+
+Theorem C18_next_load_in_every_history : forall c builtins fs0 ops s',
+  let s := run_hist c fs0 (init_state builtins) ops in
+  (exists fs f e, load_main fs c f s = (inl e, s')) \/ (exists fs fc e, load_str fs c fc s = (inl e, s')) ->
+  (forall fs' f', load_main fs' c f' s' = load_main fs' c f' s) /\
+  (forall fs' fc', load_str fs' c fc' s' = load_str fs' c fc' s).
+Proof. exact next_load_in_history. Qed.
+Print Assumptions C18_next_load_in_every_history.
+
+(* non-vacuity: global repository, GlobalRepo pattern reaching files 0 and 1; an earlier string model (anonymous0,
+   key 2), then a string main whose model processor fails (the second defect fixed for this property): the
+   repository is what it was, the earlier string model and the files stay, the repaired string loads as anonymous1 *)
+Example C18_string_main_witness :
+  let fs := [mkFile [[0; 1]] [100%N] [] false false false; mkFile [[0; 1]] [101%N] [] false false false] in
+  let c := init_cfg true false [] in
+  let s := run_hist c fs (init_state []) [OLoadStr (mkFile [[0; 1]] [103%N] [100%N] false false false)] in
+  let bad := mkFile [[0; 1]] [104%N] [104%N; 101%N] false false true in
+  let good := mkFile [[0; 1]] [104%N] [104%N; 101%N] false false false in
+  allm s = [(2, 0); (0, 1); (1, 2)] /\
+  fst (load_str fs c bad s) = inl (EMp 3) /\ allm (snd (load_str fs c bad s)) = [(2, 0); (0, 1); (1, 2)] /\
+  fst (load_str fs c good (snd (load_str fs c bad s))) = inr 3 /\
+  allm (snd (load_str fs c good (snd (load_str fs c bad s)))) = [(2, 0); (0, 1); (1, 2); (3, 3)] /\
+  load_str fs c good (snd (load_str fs c bad s)) = load_str fs c good s.
+Proof. vm_compute. repeat split; reflexivity. Qed.
+Print Assumptions C18_string_main_witness.
+
 (* The un-collected load (load_main_raw) leaves the models of a failed attempt unreachable: this is what
    justifies dropping them.  Same statement as C18_clean, on the raw function. *)
 Theorem C18_clean_before_collection : forall fs c f s e s',
